@@ -211,6 +211,11 @@ class Engine(object):
             # created (pre-state arrays: nothing allocated during this execution at all)
             bound = self.alloc_bound(st, t)
             st.assume(z3.Implies(Val.is_ref(t), Val.id(t) <= FRESH_BASE + bound))
+        if isinstance(ty, tuple) and (ty[0] == "tuple" or (ty[0] == "inst" and self.repo.classes[ty[1]].namedtuple_fields)) \
+                and self.concrete_id(t) is None:
+            idt = Val.id(t)
+            if not any(x.eq(idt) for x in st.frozen_terms) and len(st.frozen_terms) < 40:
+                st.frozen_terms.append(idt)       # immutable object: interference never changes it
         if ty == "bool":
             return Z(Val.b(t), "bool")
         if ty == "int":
@@ -594,7 +599,7 @@ class Engine(object):
             a = old[name]
             new = fresh("H_" + name.strip("$"), a.sort())
             st.epochs[new.decl().name()] = st.n_alloc
-            keep = [z3.IntVal(p) for p in sorted(st.private | st.frozen)]
+            keep = [z3.IntVal(p) for p in sorted(st.private | st.frozen)] + list(st.frozen_terms)
             if name in cfg.protected or name in ("$len", "$at", "$mem", "$dval"):
                 for (owner, lf, kind) in held_ids:
                     if owner is None:
